@@ -47,7 +47,10 @@ EarlyAccept(r, mode) == r.e <= FourGiB \/ mode = "measure_all_ea"
 
 \* ---------------- layout ----------------
 \* section types: 0 BFV, 1 CFV, 2 TD_HOB, 3 TempMem, 4 unknown
-LaySec == [ty : {0, 1, 2, 3, 4}, ext : BOOLEAN]      \* ext = bit 0 of the section attributes (the other bits are ignored)
+\* ext = bit 0 of the section attributes (the other bits are ignored); empty = a scratch-memory section
+\* of memory size 0: no page is added for it, but it is a declared section like any other (it has its
+\* system-memory descriptor in the hand-off block)
+LaySec == {s \in [ty : {0, 1, 2, 3, 4}, ext : BOOLEAN, empty : BOOLEAN] : s.empty => s.ty = 3 /\ ~s.ext}
 LayLists == UNION {[1 .. n -> LaySec] : n \in 1 .. MaxSecs}
 Modes == {"default", "measure_all", "measure_all_ea"}
 Flaws == {"none", "overlap", "fvsize", "memsize"}
